@@ -14,6 +14,7 @@
 """
 
 import itertools
+import os
 
 from drivers import batch_driver, scf_driver
 from harness import common
@@ -52,6 +53,12 @@ def layouts(tier, rng):
     for mols in (["h2o", "ch4"], ["nh3", "h2", "h2co"]):
         for order in ([list(range(len(mols))), list(reversed(range(len(mols))))]):
             fixed.append(dict(mols=mols, order=order, extra_pad=1, pad_coord=0.0, params=dict(scf_converger=[1], dispersion=True, scf_eps=1.0e-10)))
+    # excited states on batches of one species at different geometries (rows finish their Davidson at different iterations)
+    scf_driver.MOLS.setdefault("h2co_d", ([8, 6, 1, 1], [[-0.02, 0.03, 0.05], [1.24, -0.02, -0.03], [1.60, 0.99, 0.10], [1.86, -0.80, -0.12]], 0, 1))
+    for order in ([0, 1], [1, 0]):
+        for meth in ("cis", "rpa"):
+            for nst in (1, 2):
+                fixed.append(dict(mols=["h2co", "h2co_d"], order=order, extra_pad=0, pad_coord=0.0, params=dict(scf_converger=[1], scf_eps=1.0e-10, excited_states={"n_states": nst, "method": meth, "tolerance": 1e-8})))
     out += fixed
     # finite electronic temperature (Krylov XL-BOMD branch) and excited states in mixed batches
     for mols in (["h2o", "h2co"], ["oh-", "h2co"], ["nh3", "h2o"]):
@@ -149,6 +156,40 @@ def main(tier):
                         rep.violation("value_depends_on_batch", {"layout": l, "mol": m, "output": name, "maxdiff": d, "tol": tol}, output=name, **fields)
             if len(samples) < 2:
                 samples.append({"layout": l, "Etot": {m: o["Etot"] for m, o in rr["result"].items()}})
+        # ---- MD: a molecule's trajectory in a padded batch equals its trajectory alone ---------------------------------------
+        mjobs = []
+        for mols in (["ch4", "h2o"], ["h2o", "nh3", "h2"]):
+            for com in (None, ["angular", 1], ["linear", 2]):
+                for extra, padc in ((0, 0.0), (2, 7.5)):
+                    mjobs.append(dict(mols=mols, com=com, extra_pad=extra, pad_coord=padc, engine="basic"))
+        mjobs.append(dict(mols=["ch4", "h2o"], com=["angular", 2], extra_pad=1, pad_coord=0.0, engine="xl"))
+        if tier == "quick":
+            mjobs = [j for j in mjobs if j["com"] != ["linear", 2] or j["extra_pad"] == 2]
+        solo_md = {}
+        for j in mjobs:
+            for m in j["mols"]:
+                solo_md.setdefault(common.sha([m, j["com"], j["engine"]]), dict(mols=[m], com=j["com"], engine=j["engine"]))
+        mkeys = sorted(solo_md)
+        alljobs = [solo_md[k] for k in mkeys] + mjobs
+        for n, j in enumerate(alljobs):
+            j["workdir"] = os.path.join(scratch, "md_%03d" % n)
+        mres = common.run_forked(alljobs, batch_driver.run_md, timeout=1800)
+        msolo = {k: (rr["result"] if rr.get("ok") else None) for k, rr in zip(mkeys, mres[: len(mkeys)])}
+        n_md = 0
+        for j, rr in zip(mjobs, mres[len(mkeys):]):
+            fields = dict(solver=1, sp2=False, extra_pad=j["extra_pad"], far_padding=j["pad_coord"] != 0.0, path="md", excited=False)
+            if not rr.get("ok"):
+                rep.violation("batch_job_failed", {"layout": {k: v for k, v in j.items() if k != "workdir"}, "error": rr.get("error")}, **fields)
+                continue
+            for m, o in rr["result"].items():
+                s0 = msolo.get(common.sha([m, j["com"], j["engine"]]))
+                if not s0:
+                    continue
+                n_md += 1
+                dx = max(abs(a - b) for a, b in zip(o["x"], s0[m]["x"]))
+                worst["md_x"] = max(worst.get("md_x", 0.0), dx / 1e-9)
+                if dx > 1e-9 or o["pad_v"] != 0.0:
+                    rep.violation("trajectory_depends_on_batch", {"layout": {k: v for k, v in j.items() if k != "workdir"}, "mol": m, "max_position_difference": dx, "padding_velocity": o["pad_v"]}, output="md", **fields)
         # ---- same-element relabelling ----------------------------------------------------------------------------------------------
         rjobs = [dict(mols=m, params=pp, seed=k) for k, m in enumerate((["ch4"], ["h2o", "c2h4"], ["co2", "nh3"], ["nh4+", "h2co"], ["c2h4", "ch4", "h2"]))
                  for pp in (dict(scf_converger=[1], scf_eps=1.0e-10), dict(scf_converger=[2], scf_eps=1.0e-10), dict(scf_converger=[1], scf_eps=1.0e-10, sp2=[True, 1e-7]),
@@ -175,7 +216,7 @@ def main(tier):
                 if d > tol:
                     rep.violation("value_depends_on_atom_labels", {"job": j, "output": name, "maxdiff": d, "tol": tol}, output=name, **fields)
         cov = {
-            "relabel_comparisons": n_rel,
+            "relabel_comparisons": n_rel, "md_trajectory_comparisons": n_md,
             "states": r.distinct + g.distinct,
             "transitions": r.generated + g.generated,
             "traces_validated_against_impl": len(recs),
